@@ -189,6 +189,12 @@ def run(c):
         def pick():
             return {"entries": r.sample(cands, r.randint(0, 3)), "root": r.random() < 0.1}
         cc.append({"id": i, "kind": "cascade", "dir": farm, "W": pick(), "R": pick(), "S": pick(), "B": pick(), "path": r.choice(names)})
+    # soft-ban sets made of the root entry alone (stored as a flag, not in the map), asked about "/" and about a link to it
+    os.symlink("/", farm + "/toroot")
+    for k, (ents, root) in enumerate([(["/"], False), ([], True), (["/"], True), (["/", farm + "/real/g"], False)]):
+        for path in ("/", farm + "/toroot", farm + "/real/g"):
+            cc.append({"id": len(cc), "kind": "cascade", "dir": farm, "W": {"entries": [], "root": False}, "R": {"entries": [], "root": False},
+                       "S": {"entries": [], "root": False}, "B": {"entries": ents, "root": root}, "path": path})
     # histories on one path name whose link is re-pointed between the queries: every answer is about where the name leads NOW
     os.makedirs(farm + "/t1")
     os.makedirs(farm + "/t2")
@@ -238,7 +244,7 @@ def run(c):
         else:
             for got, ok in ((o["cw"], o["w"]), (o["cr"], o["r"]), (o["cs"], o["s"])):
                 exp = "allow" if ok else ("ban" if ban else "kill")
-                if got != exp and not (got == "kill" and exp == "ban"):   # stricter is not a violation of the letter
+                if got != exp:   # "a soft ban exactly when the soft-ban set covers the path, otherwise a kill"
                     bad = "refusal kind: expected %s got %s" % (exp, got)
         if bad:
             c.finding_or_violation({"kind": "cascade", "what": bad, "path": x["path"]}, {"case": x, "observed": o})
